@@ -48,4 +48,19 @@ func main() {
 		_, err := psatoken.DecodeAndValidateClaimsFromCBOR(buf)
 		fmt.Println(len(m), "pairs,", len(buf), "bytes: decode+validate: err =", err)
 	}
+	// C04: a conformant token with an unknown key whose value nests 32 arrays deep is rejected
+	for _, depth := range []int{31, 32} {
+		var v interface{} = "x"
+		for i := 0; i < depth; i++ {
+			v = []interface{}{v}
+		}
+		m := map[int]interface{}{
+			265: "http://arm.com/psa/2.0.0", 2394: 1, 2395: 0x3000, 2396: mv, 10: mv, 256: iid,
+			2399: []interface{}{map[int]interface{}{2: mv, 5: mv}},
+			100000: v,
+		}
+		buf, _ := cbor.Marshal(m)
+		_, err := psatoken.DecodeAndValidateClaimsFromCBOR(buf)
+		fmt.Println("unknown key nested", depth, "arrays deep: decode+validate: err =", err)
+	}
 }
